@@ -426,8 +426,37 @@ theorem sstep_lambda (T : TiledTab src σ N) {n} (ih : BelowS src σ N n) :
       e.range = (S σ (ts.length + 1), E σ (rest.length + 1)) := by
   intro ts e rest hN
   have hP := pinv_empty src σ ts.length (ts.length + 1)
-  fun_cases parseRLambda σ n ts
-  sstep ih [params, test]
+  by_cases hc : ∃ tl, ts = .op .colon :: tl
+  · -- no parameter list: the `Arguments` node is the empty range at the end of the keyword token
+    obtain ⟨tl, rfl⟩ := hc
+    intro h
+    cases n with
+    | zero => simp [parseRLambda] at h
+    | succ f =>
+      have ih := ih _ rfl
+      rw [parseRLambda.eq_def] at h
+      simp only [] at h
+      split at h
+      · rename_i ps r hps
+        obtain ⟨q1, _, q3, _⟩ := ih.params _ _ _ _ _ _ hP (Nat.le_refl _) hN hps
+        have hps' : ps = {} := q3 ⟨tl, rfl⟩
+        subst hps'
+        split at h
+        · split at h
+          · rename_i body r' hb
+            simp only [Option.some.injEq, Prod.mk.injEq] at h
+            obtain ⟨rfl, rfl⟩ := h
+            simp only [List.length_cons] at hN q1
+            obtain ⟨g1, g2, _⟩ := ih.test _ _ _ (by omega) hb
+            simp only [List.length_cons] at g1 g2 ⊢
+            refine ⟨by omega, ?_, rfl⟩
+            exact own_lambda_empty T (by omega) (by omega) (by omega) rfl g2 (by omega) (by omega) (by omega) (by omega)
+          · cases h
+        · cases h
+      · cases h
+  · have hc' : ∀ tl, ts ≠ .op .colon :: tl := fun tl h => hc ⟨tl, h⟩
+    fun_cases parseRLambda σ n ts
+    sstep ih [params, test]
 
 /-! ### the three functions whose definitions bind intermediate results with `let` -/
 
